@@ -39,12 +39,18 @@ def contained(topo, ka0, ka1, kb0, exc, su_a, su_b, td_a, td_b, buf, v, color):
         o.output.slow_test_threshold = 10.0
     r = RW.make_runner(o, [(B, tb), (A, ta)])
     escaped = None
+    # a real run formats tracebacks through the Traceback feature (tb_format): install it like Runner.run does
+    from zope.testrunner import tb_format
+    feature = tb_format.Traceback(r)
     with RW.Captured() as cap:
+        feature.global_setup()
         try:
             r.run_tests()
         except Exception as e:
             with untraced():
                 escaped = type(e).__name__
+        finally:
+            feature.global_teardown()
     with untraced():
         why = oracle(W.TRACE, r, topo, ks, su_a, su_b, td_a, td_b, escaped, cap.text())
     LAST = (topo, tuple(ks), exc, su_a, su_b, td_a, td_b, buf, v, why, color)
@@ -123,9 +129,9 @@ def _v(**kw):
 SPEC = {
     'property': 'C04',
     'encoded': ['zope.testrunner.runner.Runner.run_tests', 'runner.run_layer', 'runner.setup_layer', 'runner.tear_down_unneeded',
-                'runner.handle_layer_failure', 'runner.run_tests', 'runner.TestResult.*', 'formatter.OutputFormatter.test_error/'
+                'runner.handle_layer_failure', 'runner.run_tests', 'runner.TestResult.*', 'tb_format.format_exception / print_exception / _iter_chain (installed like Runner.run does)', 'formatter.OutputFormatter.test_error/'
                 'test_failure/print_traceback/format_traceback/print_std_streams/error/summary', 'unittest.TestCase.run (stdlib, traced)'],
-    'files': ['src/zope/testrunner/runner.py', 'src/zope/testrunner/formatter.py'],
+    'files': ['src/zope/testrunner/runner.py', 'src/zope/testrunner/formatter.py', 'src/zope/testrunner/tb_format.py'],
     'stubs': ['runner.time, runner.gc', 'sys.stdout/sys.stderr -> TextIOWrapper objects over one byte buffer'],
     'assumptions': ['exception classes: ValueError, KeyError, an AssertionError subclass, a custom Exception subclass, a real SyntaxError (location line without ", in"), an exception whose __str__ raises; SystemExit inside tests'],
     'outside': ['MemoryError / KeyboardInterrupt (deliberately propagated by the runner)', '-D/--pdb', 'children (covered by C02/C07 worlds)',
